@@ -1,6 +1,7 @@
 package exogen
 
 import (
+	"encoding/json"
 	"fmt"
 	"go/ast"
 	"go/importer"
@@ -33,6 +34,38 @@ var (
 )
 
 func loadExports() {
+	// the shards of one run share the listing through a file in the run's work directory
+	shared := ""
+	if d := os.Getenv("VERIF_OUT"); d != "" {
+		shared = filepath.Join(d, "exogen-exports.json")
+		if b, err := os.ReadFile(shared); err == nil {
+			m := map[string]string{}
+			if json.Unmarshal(b, &m) == nil && len(m) > 0 {
+				ok := true
+				for _, f := range m {
+					if _, err := os.Stat(f); err != nil {
+						ok = false
+						break
+					}
+				}
+				if ok {
+					exports = m
+					setImporter()
+					return
+				}
+			}
+		}
+	}
+	defer func() {
+		if shared != "" && expErr == nil && len(exports) > 0 {
+			if b, err := json.Marshal(exports); err == nil {
+				tmp := shared + fmt.Sprintf(".%d", os.Getpid())
+				if os.WriteFile(tmp, b, 0o644) == nil {
+					os.Rename(tmp, shared)
+				}
+			}
+		}
+	}()
 	dir, err := os.MkdirTemp("", "exogen-exports-")
 	if err != nil {
 		expErr = err
@@ -63,6 +96,10 @@ func loadExports() {
 			exports[line[:i]] = line[i+1:]
 		}
 	}
+	setImporter()
+}
+
+func setImporter() {
 	imp = importer.ForCompiler(impFset, "gc", func(path string) (io.ReadCloser, error) {
 		f, ok := exports[path]
 		if !ok {
